@@ -47,6 +47,10 @@ def cross_stages(prop, cmds, ref, others, what):
                 a, b = logs[rl].get(c.uid), logs[lbl].get(c.uid)
                 if a is None or b is None:
                     continue
+                # native-endian exports legitimately differ between little- and big-endian targets (each is checked
+                # against the model on its own target)
+                a = ' '.join(t for t in a.split(' ') if not t.startswith('tne='))
+                b = ' '.join(t for t in b.split(' ') if not t.startswith('tne='))
                 sr.evaluations += 1
                 if a != b:
                     nd += 1
